@@ -5,7 +5,8 @@ ENGINE = 'mirfacts+genscan'
 EXPLANATION = ('Information-flow rule on type-checked MIR: the utf8 flag of a definition reaches only graph::Config.utf8_mode (whose single reader is the argument of thompson::Config::utf8), '
                'Subpatterns::new (where it only controls the UTF-8 gate), the UTF-8 gate of generate and the choice of the Source type tokens; no argument of Pattern::compile, Leaf::priority, '
                'Leaf::callback, subst_subpatterns or Generator::new depends on it by data or control. The find_boundary that applies to [u8] is the identity; patterns that can match invalid UTF-8 '
-               'are rejected in str mode (gate rule). Decides the necessary condition "switching modes changes nothing else" for every definition; behavioural equality follows only modulo C01.')
+               'are rejected in str mode (gate rule). Decides the necessary condition "switching modes changes nothing else" for every definition; behavioural equality follows only modulo C01.'
+               ' Added in round 8: str::read is the byte-level sub-slice of as_bytes() in both runtimes (M-C05b, M-C05d), so both modes are fed the same bytes.')
 
 
 def run(ctx, rep):
